@@ -6,7 +6,7 @@ import numpy as np
 RULE = (
     "full product: data = every tuple of length <= L over the 9-value alphabet V "
     "(f8) and over its integer/half-integer members (i8,i4,f4) x binning "
-    "{binsize .1,.3,.5,1,2.5 | nbin 1,2,3,5} x min {None,-1,0,.5,1} x max {None,0,1,2,3.7} "
+    "(and, on a reduced data set, as 14 memory layouts: strided / negative-stride views, record-array field, 2-d column, big-endian, list, read-only, small integer types) x {binsize .1,.3,.5,1,2.5 | nbin 1,2,3,5} x min {None,-1,0,.5,1} x max {None,0,1,2,3.7} "
     "(max >= min) x entry {histogram, Binner.dohist}; each case runs BOTH engines "
     "(compiled, pure python) and compares them with each other and with the "
     "reference.  non-trivial = the data contain a tie, a value exactly on a bin "
@@ -69,9 +69,39 @@ def main(ctx):
         b.dohist(calc_stats=False, **kw)
         return b["hist"], (b["rev"] if rev else None)
 
+    def build_array(dt, data):
+        """the data in the requested dtype / memory layout ('f8:strided' etc.)"""
+        base, _, lay = dt.partition(":")
+        a = np.array(data, dtype=base)
+        if not lay:
+            return a
+        if lay == "strided":
+            big = np.full(a.size * 3 + 1, 55.5, dtype=base)
+            big[1::3] = a
+            return big[1::3]
+        if lay == "neg":
+            big = np.full(a.size * 2, 55.5, dtype=base)
+            big[::2] = a[::-1]
+            return big[::2][::-1]
+        if lay == "field":
+            r = np.zeros(a.size, dtype=[("pad", "i2"), ("x", base), ("tail", "S3")])
+            r["pad"] = 77
+            r["x"] = a
+            return r["x"]
+        if lay == "col":
+            m = np.full((a.size, 3), 55.5, dtype=base)
+            m[:, 1] = a
+            return m[:, 1]
+        if lay == "list":
+            return a.tolist()
+        if lay == "readonly":
+            a.flags.writeable = False
+            return a
+        raise ValueError(dt)
+
     def one(case, rec):
         dt, data, bkind, bval, mn, mx, entry = case
-        arr = np.array(data, dtype=dt)
+        arr = build_array(dt, data)
         ref = reference(arr, bkind, bval, mn, mx)
         res = {}
         for eng in (True, False):
@@ -168,6 +198,29 @@ def main(ctx):
                 bounds=dict(max_len_f8=L, max_len_other=LI, alphabet=V, binning=BINNING,
                             mins=MINS, maxs=MAXS, engines=["compiled", "python"],
                             entries=["histogram", "Binner.dohist"]))
+
+    # memory layouts of the input: the compiled engine works on raw buffers, so the same data is passed as a
+    # strided view, a negative-stride view, a field of a record array, a column of a 2-d array, big-endian,
+    # a list and a read-only array (the reference always sees the values)
+    LAYOUTS = ["f8:strided", "f8:neg", "f8:field", "f8:col", ">f8", ">f8:strided", "f8:list", "f8:readonly", "f4:strided",
+               "i4:field", ">i4", "i2", "u1", "i8:col"]
+    LV = [(0.0, 0.5, 1.0, 1.5, 2.0, 3.7, 1.0, 3.0), (3.0, 1.0, 2.0), (1.0,), (2.0, 0.0, 2.0, 1.0, 0.0, 3.0, 3.0, 1.0, 2.0, 0.0)]
+    lunits = []
+    for lay in LAYOUTS:
+        for (bkind, bval) in BINNING:
+            lunits.append((lay, bkind, bval))
+
+    def expand_l(u):
+        lay, bkind, bval = u
+        integral = lay.split(":")[0].lstrip("<>")[0] in "iu"
+        for data in LV:
+            if integral:
+                data = tuple(float(int(v)) for v in data)
+            for mn, mx in ((None, None), (0.5, None), (None, 2.0), (1.0, 3.0)):
+                for entry in ("histogram", "binner"):
+                    yield (lay, data, bkind, bval, mn, mx, entry)
+
+    ctx.lattice("input-layouts", lunits, one, expand=expand_l, bounds=dict(layouts=LAYOUTS, data=[list(v) for v in LV]))
 
     # long arrays: every 2-symbol pattern of length 12 (thorough) / 8 (quick)
     LL = ctx.pick(8, 12)
